@@ -13,10 +13,13 @@ import (
 	"strings"
 	"time"
 
+	"github.com/gopacket/gopacket"
+
 	"github.com/scionproto/scion/pkg/addr"
 	"github.com/scionproto/scion/pkg/drkey"
 	"github.com/scionproto/scion/pkg/slayers"
 	"github.com/scionproto/scion/pkg/spao"
+	"github.com/scionproto/scion/private/drkey/drkeyutil"
 	"github.com/scionproto/scion/router"
 
 	"verifharness/internal/glit"
@@ -35,6 +38,8 @@ type ctx struct {
 	rng     *vgen.Rand
 	now     int64
 	prelude []string
+	// validAuth: the packet of the next emit carries an authenticator that hasValidAuth must accept
+	validAuth bool
 }
 
 func (x *ctx) addConfig(c *rtgen.Config) conf {
@@ -189,7 +194,7 @@ func (x *ctx) emit(stream string, cf conf, sc *rtgen.Scenario, epic bool, r *vge
 		run.Tally(fmt.Sprintf("reply-hops:%02d-", len(o.Reply.Rec.Hops)/8*8))
 	}
 	term := "(let l4v := " + o.Reply.L4Term() + " in " + vgen.App("RouterScmp.CSlow", cf.name, sc.Ing.Gallina(), req, vgen.N(uint64(res.Egress)),
-		o.Left.Term(), "false", vgen.N(ats), o.Reply.MacTable(), o.ImplTerm()) + ")"
+		o.Left.Term(), vgen.B(x.validAuth), vgen.N(ats), o.Reply.MacTable(), o.ImplTerm()) + ")"
 	var tags []string
 	if o.Left.Rec.MetaRsv != 0 {
 		tags = append(tags, "c09-quote-meta-rsv-cleared")
@@ -310,8 +315,101 @@ func main() {
 		}
 		x.emit("alert", cf, sc, r.Chance(1, 6), r, "l4:"+o.L4, "ext:"+o.Ext)
 	}
+	// ---- traceroute requests carrying a packet authenticator option (SPAO) under the key of the router's
+	// drkeyutil.FakeProvider (all-zero AS-host key of the current epoch): hasValidAuth must accept the valid
+	// ones, so that (authentication on) the traceroute REPLY is authenticated too; a flipped tag, a timestamp
+	// outside the acceptance window and routers without authentication answer without authenticator
+	nAuthTr := run.Count(48, 1200)
+	for i := 0; i < nAuthTr; i++ {
+		r := x.rng.Fork(uint64(300000 + i))
+		cf := cfgs[(2*i+1)%nCfg] // odd configurations authenticate
+		if i%6 == 5 {
+			cf = cfgs[(2*i)%nCfg]
+		}
+		sc := rtgen.GenValid(r, cf.rt.Cfg, x.now, kinds[i%len(rtgen.Kinds)])
+		rtgen.Mutate(r, sc, cf.rt.Cfg, x.now, "alert")
+		d := sc.Desc
+		h := &d.Hops[min(int(d.CurrHF), len(d.Hops)-1)]
+		h.IngressAlert, h.EgressAlert = true, true
+		d.HBH = nil
+		if i%5 == 4 {
+			d.HBH = []rtgen.Opt{{Type: 9, Data: r.Bytes(3)}}
+		}
+		d.L4 = rtgen.SCMPTraceroute(false, uint16(r.U64()), uint16(r.U64()), 0, 0)
+		variant := []string{"valid", "valid", "valid", "tag-flipped", "timestamp-outside-window", "valid"}[i%6]
+		valid := authenticate(r, d, variant)
+		x.validAuth = valid && variant != "tag-flipped" && variant != "timestamp-outside-window"
+		x.emit("auth-traceroute", cf, sc, false, r, "l4:traceroute-request", "spao:"+variant)
+		x.validAuth = false
+	}
 	run.Prelude = "From Coq Require Import PrimInt63.\n" + strings.Join(x.prelude, "\n")
 	run.Finish()
+}
+
+// authenticate puts an E2E authenticator option into d: SPI = DRKey SCMP / AS-host / receiver side, CMAC,
+// timestamp relative to the current epoch of the FakeProvider, tag = AES-CMAC under the all-zero key (independent
+// implementation) of the authenticated data that the real pkg/spao serializer yields for the decoded packet.
+func authenticate(r *vgen.Rand, d *rtgen.Desc, variant string) bool {
+	now := time.Now()
+	fp := &drkeyutil.FakeProvider{EpochDuration: drkeyutil.LoadEpochDuration()}
+	key, err := fp.GetASHostKey(now, 0, addr.Host{})
+	if err != nil {
+		return false
+	}
+	at := now
+	if variant == "timestamp-outside-window" {
+		at = now.Add(-drkeyutil.LoadAcceptanceWindow() - time.Minute)
+		if at.Before(key.Epoch.NotBefore) {
+			at = now.Add(drkeyutil.LoadAcceptanceWindow() + time.Minute)
+		}
+	}
+	ts, err := spao.RelativeTimestamp(key.Epoch, at)
+	if err != nil {
+		return false
+	}
+	spi, _ := slayers.MakePacketAuthSPIDRKey(uint16(drkey.SCMP), slayers.PacketAuthASHost, slayers.PacketAuthReceiverSide)
+	data := make([]byte, 12+16)
+	data[0], data[1], data[2], data[3] = byte(spi>>24), byte(spi>>16), byte(spi>>8), byte(spi)
+	data[4] = byte(slayers.PacketAuthCMAC)
+	for k := 0; k < 6; k++ {
+		data[6+k] = byte(ts >> (8 * (5 - k)))
+	}
+	d.E2E = []rtgen.Opt{{Type: uint8(slayers.OptTypeAuthenticator), Data: data}}
+	raw, err := d.Serialize()
+	if err != nil {
+		return false
+	}
+	var s slayers.SCION
+	s.RecyclePaths()
+	if err := s.DecodeFromBytes(raw, gopacket.NilDecodeFeedback); err != nil {
+		return false
+	}
+	rest := s.Payload
+	if s.NextHdr == slayers.HopByHopClass {
+		var hbh slayers.HopByHopExtnSkipper
+		if err := hbh.DecodeFromBytes(rest, gopacket.NilDecodeFeedback); err != nil {
+			return false
+		}
+		rest = hbh.Payload
+	}
+	var e2e slayers.EndToEndExtn
+	if err := e2e.DecodeFromBytes(rest, gopacket.NilDecodeFeedback); err != nil || len(e2e.Options) != 1 {
+		return false
+	}
+	opt, err := slayers.ParsePacketAuthOption(e2e.Options[0])
+	if err != nil {
+		return false
+	}
+	ad, err := spao.VerifAuthenticatedData(spao.MACInput{Header: opt, ScionLayer: &s, PldType: slayers.L4SCMP, Pld: e2e.Payload})
+	if err != nil {
+		return false
+	}
+	tag := spgen.CMAC(make([]byte, 16), append(ad, e2e.Payload...))
+	if variant == "tag-flipped" {
+		tag[r.Intn(16)] ^= 1 << r.Intn(8)
+	}
+	copy(data[12:], tag)
+	return true
 }
 
 // sizeClass spreads the size classes; the quick tier keeps most packets small.
